@@ -88,7 +88,8 @@ bool MPSInput::readLine()
       // Read until we have a non-empty, non-comment line.
       do
       {
-         if(!m_input.getline(m_buf, sizeof(m_buf)).good() && !m_input.eof())
+         // stop on a read error, and at the end of the file once nothing more could be extracted
+         if(!m_input.getline(m_buf, sizeof(m_buf)).good() && (!m_input.eof() || m_input.gcount() == 0))
             return false;
 
          m_lineno++;
